@@ -421,9 +421,15 @@ struct Fixture {
         QXmppIncomingClient *c = nullptr;
         for (auto *x : server->findChildren<QXmppIncomingClient *>()) if (!before.contains(x)) c = x;
         if (!c) return nullptr;
-        QObject::connect(c, &QXmppIncomingClient::disconnected, [this, c]() { closedClients << c; });
+        QObject::connect(c, &QXmppIncomingClient::disconnected, [this, c]() {
+            closedClients << c;
+            // the real client is deleted, with the checker replies it still waits for, before any of them can finish; here it is
+            // kept alive (HoldDeletes), so its outstanding replies are silenced instead
+            for (auto *r : c->findChildren<QXmppPasswordReply *>()) r->blockSignals(true);
+        });
         QObject::connect(c, &QXmppLoggable::logMessage, [this, c](QXmppLogger::MessageType t, const QString &) {
-            if (t == QXmppLogger::SentMessage && closedClients.contains(c)) deadSend = true;
+            // (a closed connection that still processes elements of its last read "writes" its own answers: harmless)
+            if (t == QXmppLogger::SentMessage && closedClients.contains(c) && c != att[acting].conn) deadSend = true;
         });
         return c;
     }
@@ -463,8 +469,9 @@ struct Fixture {
         checker.prune();
         if (closedClients.contains(c)) return idx;   // the real client is deleted together with its replies
         for (int i = 0; i < checker.pending.size(); i++) {
-            QObject *sasl = checker.pending[i]->parent();
-            if (sasl && sasl->parent() == c) idx << i;
+            // whichever object of the connection owns the reply (today: its SASL server object)
+            for (QObject *o = checker.pending[i]->parent(); o; o = o->parent())
+                if (o == c) { idx << i; break; }
         }
         return idx;
     }
@@ -499,7 +506,16 @@ static Obs applyOp(Fixture &f, int k, const QStringList &w)
     f.acting = k;
     Att &me = f.att[k];
     if (w[0] == "deliver") f.deliver(me.conn, w.value(1).toInt());
-    else me.peer->send(opXml(w, me.nonce));
+    else {
+        // "elem + elem + ..." = several elements in ONE write
+        QByteArray data;
+        QStringList cur;
+        for (auto &x : w + QStringList { "+" }) {
+            if (x == "+") { if (!cur.isEmpty()) data += opXml(cur, me.nonce); cur.clear(); }
+            else cur << x;
+        }
+        me.peer->send(data);
+    }
     settle();
     Obs o;
     for (int j = 1; j <= 2; j++) {
@@ -517,7 +533,7 @@ static Obs applyOp(Fixture &f, int k, const QStringList &w)
     o.aOpen = !f.att[1].peer || f.att[1].peer->open();
     o.bOpen = !f.att[2].peer || f.att[2].peer->open();
     o.vOpen = f.victim->open();
-    o.ub = f.deadSend;
+    o.ub = f.deadSend && !getenv("C16_RUN_UB_PATHS");
     return o;
 }
 
@@ -544,6 +560,9 @@ static void fail(const std::string &key, const std::string &replay)
 // What one attacker connection has proven so far, from its own inputs and the checker's table only (never from the model).
 struct Oracle {
     QSet<QString> approved;   // users for which a checker-approved credential was presented on this connection
+    QSet<QString> exchange;   // ... within the SASL exchange in progress (since the last <auth/> / <authenticate/>)
+    QSet<QString> identity;   // ... within the exchange that the last <success/> concluded
+    bool batchAfterClose = false;   // the server went on processing elements of a read after it had closed the stream
     bool sawSuccess = false;  // the server has told the attacker that authentication succeeded
     bool overlap = false;     // an element was sent while a checker reply for this connection was still outstanding
     QMap<QString, QString> table;
@@ -554,14 +573,25 @@ struct Oracle {
         if (w[0] == "auth1" || w[0] == "auth2") pl = w[2];
         else if (w[0] == "resp1" || w[0] == "resp2") pl = w[1];
         auto f = pl.split(':');
-        if (f[0] == "c" && f.size() == 3 && table.contains(f[1]) && table[f[1]] == f[2]) approved << f[1];
-        if (f[0] == "z" && f.size() == 4 && table.contains(f[2]) && table[f[2]] == f[3]) approved << f[2];   // authzid (f[1]) proves nothing
-        if (f[0] == "d" && f.size() == 5 && f[1] == f[2] && table.contains(f[2]) && table[f[2]] == f[3]) approved << f[1];
-        if (f[0] == "a" && f.size() == 4 && f[1] == f[2] && table.contains(f[2]) && table[f[2]] == f[3]) approved << f[1];
+        if (w[0] == "auth1" || w[0] == "auth2" || w[0] == "open") exchange.clear();   // a new exchange starts from nothing
+        QString u;
+        if (f[0] == "c" && f.size() == 3 && table.contains(f[1]) && table[f[1]] == f[2]) u = f[1];
+        if (f[0] == "z" && f.size() == 4 && table.contains(f[2]) && table[f[2]] == f[3]) u = f[2];   // authzid (f[1]) proves nothing
+        if (f[0] == "d" && f.size() == 5 && f[1] == f[2] && table.contains(f[2]) && table[f[2]] == f[3]) u = f[1];
+        if (f[0] == "a" && f.size() == 4 && f[1] == f[2] && table.contains(f[2]) && table[f[2]] == f[3]) u = f[1];
         // "r:" (a recorded response over a stale nonce) proves nothing
+        if (!u.isNull()) { approved << u; exchange << u; }
     }
     static QString bare(const QString &j) { int p = j.indexOf('/'); return p < 0 ? j : j.left(p); }
     // the address is literally user@domain or user@domain/resource for an approved user
+    static bool belongsTo(const QSet<QString> &users, const QString &jid)
+    {
+        for (auto &u : users) {
+            const QString b = u + "@" + DOMAIN;
+            if (jid == b || jid.startsWith(b + "/")) return true;
+        }
+        return false;
+    }
     bool jidApproved(const QString &jid) const
     {
         for (auto &u : approved) {
@@ -576,8 +606,11 @@ struct Oracle {
         for (auto &u : approved) if (u.contains('/') && bare(jid) == bare(u + "@" + DOMAIN)) return true;
         return false;
     }
+    // the identity must come from the credentials of the very exchange that ended in <success/>
+    bool identityOk(const QString &jid) const { return belongsTo(identity, jid); }
     std::string unapprovedKey(const QString &jid) const
     {
+        if (jidApproved(jid)) return "C16:identity-not-approved-for-this-exchange";
         if (jid.startsWith("/")) return "C16:preauth-bind";
         if (slashName(jid)) return "C16:username-with-slash";
         return overlap ? "C16:reply-confusion" : "C16:auth-not-approved";
@@ -602,10 +635,10 @@ struct Oracle {
         const bool before = sawSuccess;   // authenticated before this element was processed?
         bool succNow = false;
         for (auto &e : mine) if (e.startsWith("succ")) succNow = true;
-        if (succNow) sawSuccess = true;
-        // (1) whoever the server takes the connection for must have been approved by the checker
-        if (!jid.isEmpty() && !jidApproved(jid)) return unapprovedKey(jid);
-        for (auto &e : o.auth) if (!jidApproved(e.mid(5, e.size() - 6))) return unapprovedKey(e.mid(5, e.size() - 6));
+        if (succNow || !o.auth.isEmpty()) { sawSuccess = true; identity = exchange; }
+        // (1) whoever the server takes the connection for must have been approved by the checker, in the exchange that succeeded
+        if (!jid.isEmpty() && !identityOk(jid)) return unapprovedKey(jid);
+        for (auto &e : o.auth) if (!identityOk(e.mid(5, e.size() - 6))) return unapprovedKey(e.mid(5, e.size() - 6));
         // (2) nothing bound, routed or answered before authentication
         const bool authedNow = before || succNow;   // SASL2 may bind within the step that reports success
         for (auto &e : o.sig) if (e.startsWith("conn(") && !authedNow) return "C16:preauth-bind";
@@ -616,17 +649,17 @@ struct Oracle {
         }
         bool delivered = false;
         for (auto &e : others) if (isDeliveredStanza(e)) delivered = true;
-        if ((!o.routed.isEmpty() || delivered) && !before) return "C16:preauth-stanza-routed";
+        if ((!o.routed.isEmpty() || delivered) && !authedNow) return "C16:preauth-stanza-routed";   // (several elements in one write may authenticate first)
         // (3) whatever reaches anybody from this socket carries the sender's own, approved address
         for (auto &e : others + mine) {
             if (!isDeliveredStanza(e)) continue;
             const QString from = fromOf(e);
-            if (from != jid && from != bare(jid)) return "C16:spoofed-from";
-            if (!jidApproved(from)) return slashName(jid) ? "C16:username-with-slash" : "C16:spoofed-from";
+            if (!jid.isEmpty() && from != jid && from != bare(jid)) return "C16:spoofed-from";
+            if (!identityOk(from)) return slashName(jid) ? "C16:username-with-slash" : jidApproved(from) ? "C16:identity-not-approved-for-this-exchange" : "C16:spoofed-from";
         }
         for (auto &e : o.routed) {   // tag(from,to): what the connection handed to routing
             const QString from = e.mid(e.indexOf('(') + 1, e.indexOf(',') - e.indexOf('(') - 1);
-            if (!jidApproved(from)) return slashName(jid) ? "C16:username-with-slash" : "C16:spoofed-from";
+            if (!identityOk(from)) return slashName(jid) ? "C16:username-with-slash" : jidApproved(from) ? "C16:identity-not-approved-for-this-exchange" : "C16:spoofed-from";
         }
         // (4) the victim is only ever disconnected by somebody approved as the victim (never, here)
         for (auto &e : o.v) if (e.startsWith("err(") || e == "end") return "C16:victim-disconnected";
@@ -698,26 +731,46 @@ static size_t runScript(const Script &sc0, bool stock = false, bool twoConn = fa
         if (k == 2) stat("ops_second_connection");
         Att &me = f.att[k];
         const bool open = me.peer->open();
-        if (g[k].wouldBeUb(w, f, me.conn, open) && !getenv("C16_RUN_UB_PATHS")) {   // (the env switch is for manual probing only)
+        // "e1 + e2 + ..." = several elements in one write
+        QList<QStringList> elems;
+        { QStringList cur; for (auto &x : w + QStringList { "+" }) { if (x == "+") { if (!cur.isEmpty()) elems << cur; cur.clear(); } else cur << x; } }
+        if (elems.size() > 1) stat("ops_several_elements_in_one_write");
+        bool ubPredicted = false;
+        for (auto &el : elems) if (g[k].wouldBeUb(el, f, me.conn, open)) ubPredicted = true;
+        if (ubPredicted && !getenv("C16_RUN_UB_PATHS")) {   // (the env switch is for manual probing only)
             corr(sc[i], "ub");
             stat("ub_paths_not_executed");
             if (deadAt == sc.size()) deadAt = i;
             break;
         }
-        g[k].sent(w, open);
         const bool vOpen = f.victim->open();
-        if (open) orc[k].noteInput(w);
         if (open && w[0] != "deliver" && !f.pendingOf(me.conn).isEmpty()) orc[k].overlap = true;
+        for (auto &el : elems) { g[k].sent(el, open); if (open) orc[k].noteInput(el); }
+        const bool srvOpenBefore = f.serverSideOpen(k);
         Obs o = applyOp(f, k, w);
+        // nothing can be written to a socket the server has closed in an earlier read: for the model this op is its first element only
+        // (the model lets `sameRead` elements follow any close; in reality only a close within the same read)
+        std::string opLine = sc[i];
+        if (!open && elems.size() > 1) opLine = std::to_string(k) + " " + elems[0].join(" ").toStdString();
         const QStringList &mine = k == 1 ? o.a : o.b;
         g[k].received(mine);
-        corr(sc[i], o.str());
+        corr(opLine, o.str());
         stat("ops");
-        stat("op_" + w[0].toStdString());
+        for (auto &el : elems) stat("op_" + el[0].toStdString());
+        // one element can not both end the stream and bind / route: the server went on with the rest of the read
+        if (srvOpenBefore && !f.serverSideOpen(k) && elems.size() > 1) {
+            bool bound = false;
+            for (auto &e : o.sig) if (e.startsWith("conn(")) bound = true;
+            if (bound || !o.routed.isEmpty()) {
+                orc[1].batchAfterClose = orc[2].batchAfterClose = true;
+                stat("processed_after_disconnect");
+                fail("C16:processing-after-disconnect", joinScript(sc, i));
+            }
+        }
         if (o.ub) {
             // observed on the real server: it wrote to a connection that is gone, through a routing entry that outlived it
             stat("stale_entry_used");
-            fail("C16:stale-routing-entry", joinScript(sc, i));
+            fail(orc[1].batchAfterClose ? "C16:processing-after-disconnect" : "C16:stale-routing-entry", joinScript(sc, i));
             if (deadAt == sc.size()) deadAt = i;
             break;
         }
@@ -920,9 +973,25 @@ int main(int argc, char **argv)
         { "open example.org", "auth1 PLAIN c:mallory:mpw", "deliver 0", "bind r", "bind r2", "close",
           "2 open example.org", "2 auth1 PLAIN c:mallory:mpw", "2 deliver 0", "2 bind r" },
     };
-    for (int stock = 0; stock < 2; stock++) for (auto &sc : corpus3) runScript(sc, stock, true);
+    // elements after the one on which the server closed the stream, in the same write; overlapping exchanges
+    const std::vector<Script> corpus4 = {
+        { "open example.org", "auth1 PLAIN c:mallory:mpw", "deliver 0", "auth1 X-FOO - + bind r + msg - victim@example.org/v",
+          "2 open example.org", "2 auth1 PLAIN c:eve:epw", "2 deliver 0", "2 msg - mallory@example.org/r" },
+        { "open example.org", "auth1 DIGEST-MD5 -", "resp1 d:mallory:mallory:bad:a", "deliver 0",
+          "resp1 d:victim:mallory:mpw:a + resp1 - + bind r + msg - victim@example.org/v" },
+        { "open example.org", "auth1 PLAIN c:mallory:mpw", "auth1 PLAIN c:victim:bad", "deliver 0", "deliver 0", "bind v", "msg - eve@example.org" },
+        { "open example.org", "auth2 PLAIN c:mallory:mpw b:", "auth2 PLAIN c:victim:bad b:", "deliver 0", "deliver 0", "msg - eve@example.org" },
+        { "open example.org", "auth1 DIGEST-MD5 -", "resp1 d:mallory:mallory:mpw:a", "auth1 DIGEST-MD5 -", "resp1 d:victim:victim:bad:a", "deliver 0", "deliver 0", "resp1 -", "bind v" },
+        { "open example.org", "auth1 PLAIN c:mallory:mpw + bind r + msg - victim@example.org/v", "deliver 0", "bind r", "msg - victim@example.org/v + msg - victim@example.org + close" },
+    };
+    for (int stock = 0; stock < 2; stock++) {
+        for (auto &sc : corpus3) runScript(sc, stock, true);
+        for (auto &sc : corpus4) runScript(sc, stock, true);
+    }
     crashProbe(argv[0], "C16:stale-routing-entry",
                "1 open example.org;1 auth1 PLAIN c:mallory:mpw;1 deliver 0;1 bind r;1 bind r2;1 close;2 open example.org;2 auth1 PLAIN c:eve:epw;2 deliver 0;2 msg - mallory@example.org/r");
+    crashProbe(argv[0], "C16:processing-after-disconnect",
+               "1 open example.org;1 auth1 PLAIN c:mallory:mpw;1 deliver 0;1 auth1 X-FOO - + bind r;2 open example.org;2 auth1 PLAIN c:eve:epw;2 deliver 0;2 msg - mallory@example.org/r");
     crashProbe(argv[0], "C16:sasl2-request-unset",
                "1 open example.org;1 auth1 DIGEST-MD5 -;1 resp2 d:mallory:mallory:mpw:a;1 deliver 0;1 resp2 -");
 
@@ -963,6 +1032,9 @@ int main(int argc, char **argv)
             r + "d:mallory:mallory:mpw:a", r + "d:mallory:mallory:bad:a", r + "d:mallory:mallory::a", r + "d:nobody:nobody::a",
             r + "d:nobody:nobody:bad:a", r + "d:tempuser:tempuser::a", r + "d:victim:victim::a", r + "d:victim:mallory:mpw:a",
             r + "r:victim:victim:vpw", r + "r:mallory:mallory:mpw", r + "-", "deliver 0", "bind r", "msg - victim@example.org/v",
+            // several elements in one write: a response naming the victim but keyed with the attacker's own secret, the final
+            // empty response, a bind and a message
+            r + "d:victim:mallory:mpw:a + " + r + "- + bind r + msg - victim@example.org/v",
         };
         const int depthDigest = (thorough ? 4 : 3) - (v - 1);
         for (int stock = 0; stock < 2; stock++)
@@ -984,8 +1056,20 @@ int main(int argc, char **argv)
     const std::vector<std::string> twoAlpha = {
         "1 bind r", "2 bind r", "1 bind r2", "2 bind r2", "1 msg - mallory@example.org/r", "2 msg - mallory@example.org/r", "1 msg - mallory@example.org",
         "2 msg mallory@example.org/r victim@example.org/v", "1 close", "2 close", "2 auth1 PLAIN c:eve:epw", "2 deliver 0", "1 iq get - mallory@example.org/r2",
-        "2 msg - victim@example.org/v",
+        "2 msg - victim@example.org/v", "1 auth1 X-FOO - + bind r", "2 resp1 - + bind r2 + msg - mallory@example.org/r",
     };
+    // overlapping SASL exchanges with a deferred checker reply: a second <auth/> (PLAIN, DIGEST-MD5, SASL2) between the first
+    // one and its reply, replies delivered late and out of order; and several elements in one write after a failure
+    const std::vector<std::string> overlapAlpha = {
+        "auth1 PLAIN c:mallory:mpw", "auth1 PLAIN c:victim:bad", "auth2 PLAIN c:mallory:mpw b:", "auth2 PLAIN c:victim:bad -",
+        "auth1 DIGEST-MD5 -", "auth2 DIGEST-MD5 - b:", "resp1 d:mallory:mallory:mpw:a", "resp1 d:victim:victim:bad:a", "resp2 d:victim:mallory:mpw:a",
+        "resp1 -", "deliver 0", "deliver 1", "bind v", "msg - eve@example.org",
+        "auth1 X-FOO - + bind v + msg - victim@example.org/v", "auth1 PLAIN c:victim:bad + bind v + msg - eve@example.org",
+    };
+    enumerate({ "open example.org" }, overlapAlpha, thorough ? 4 : 3, false);
+    enumerate({ "open example.org", "auth1 PLAIN c:mallory:mpw", "deliver 0" }, overlapAlpha, thorough ? 3 : 2, false);
+    enumerate({ "open example.org" }, overlapAlpha, thorough ? 3 : 2, true);
+    stat("alphabet_overlap", (long long)overlapAlpha.size());
     const Script twoLogin = { "1 open example.org", "1 auth1 PLAIN c:mallory:mpw", "1 deliver 0", "2 open example.org", "2 auth1 PLAIN c:mallory:mpw", "2 deliver 0" };
     enumerate(twoLogin, twoAlpha, thorough ? 4 : 3, false, true);
     enumerate(twoLogin, twoAlpha, thorough ? 3 : 2, true, true);
